@@ -35,6 +35,9 @@ def run(ctx):
         for s in big:
             byclass.setdefault(("htd", s["h"], s["tc"], s["dc"]), []).append(s)
             byclass.setdefault(("hp", s["h"], tuple(s["pcc"])), []).append(s)
+            # every (host lexeme, first component lexeme, number of components): words with a meaning in
+            # another slot ("localhost", "library") matter by their spelling, not by their class
+            byclass.setdefault(("hp1", s["h"], s["pcs"][0], len(s["pcs"])), []).append(s)
         picked = [rng.choice(v) for v in byclass.values()]
         rest = rng.sample(big, 4000)
         chosen = rng.sample(small, min(len(small), 3000)) + picked + rest
